@@ -2,6 +2,7 @@ package main
 
 import (
 	"fmt"
+	"os"
 	"go/ast"
 	"go/token"
 	"go/types"
@@ -45,6 +46,7 @@ func (vc *VC) reset() {
 	vc.factSeen = map[string]bool{}
 	vc.loopSpecs = map[int]*LoopSpec{}
 	vc.params = map[string]ssa.Value{}
+	vc.fromField = map[ssa.Value]string{}
 }
 
 // Generate runs the translation (two passes: the first discovers the heap arrays).
@@ -119,6 +121,13 @@ func (vc *VC) translate() {
 		}
 	}
 	vc.assumeAxioms()
+	vc.items = append(vc.items, &item{probe: true})
+	if vc.con != nil && len(vc.con.Effects) > 0 {
+		saved := vc.con.FreshWrites
+		vc.con.FreshWrites = nil
+		vc.applyEffects(vc.con, vc.envEntry(), token.NoPos)
+		vc.con.FreshWrites = saved
+	}
 
 	for _, b := range vc.topo {
 		vc.block(b)
@@ -312,8 +321,8 @@ func (vc *VC) bindLoops() {
 			}
 			for _, ins := range b.Instrs {
 				p := ins.Pos()
-				if !p.IsValid() {
-					continue
+				if _, isPhi := ins.(*ssa.Phi); isPhi || !p.IsValid() {
+					continue // a phi carries the position of the variable's declaration
 				}
 				for _, l := range srcLoops {
 					if l.Pos() <= p && p <= l.End() {
@@ -364,6 +373,15 @@ func (vc *VC) bindLoops() {
 		t := textOf(l)
 		cnt[t]++
 		ord[l] = cnt[t]
+	}
+	if os.Getenv("GOVC_DEBUG_LOOPS") != "" {
+		for _, h := range vc.loopHeads {
+			if l := hdrLoop[h]; l != nil {
+				fmt.Fprintf(os.Stderr, "%s: header %d -> %q #%d\n", vc.e.fname(vc.fn), h, textOf(l), ord[l])
+			} else {
+				fmt.Fprintf(os.Stderr, "%s: header %d -> (none)\n", vc.e.fname(vc.fn), h)
+			}
+		}
 	}
 	for _, ls := range vc.con.Loops {
 		for _, h := range vc.loopHeads {
@@ -455,6 +473,49 @@ func (vc *VC) envAt(b *ssa.BasicBlock, heap *Heap, sub map[ssa.Value]Term) *cenv
 			continue
 		}
 		ce.vars[name] = cval{t: t, typ: v.Type()}
+	}
+	// entry values of parameters: <name>0
+	for name, p := range vc.params {
+		if _, isFV := p.(*ssa.FreeVar); isFV {
+			continue
+		}
+		if _, clash := ce.vars[name+"0"]; !clash {
+			ce.vars[name+"0"] = cval{t: vc.val[p], typ: p.Type()}
+		}
+	}
+	// names for range loops: range_i (index of the last completed iteration, -1 before the first),
+	// range_x (the slice/string/map ranged over), visited(k) for map ranges
+	if vc.loopBlks[b.Index] != nil {
+		for _, ins := range b.Instrs {
+			switch x := ins.(type) {
+			case *ssa.Phi:
+				if x.Comment == "rangeindex" {
+					t, ok := sub[x]
+					if !ok {
+						t = vc.v(x)
+					}
+					ce.vars["range_i"] = cval{t: t, typ: x.Type()}
+				}
+			case *ssa.BinOp:
+				if x.Op == token.LSS {
+					if c, ok := x.Y.(*ssa.Call); ok {
+						if bi, ok := c.Call.Value.(*ssa.Builtin); ok && bi.Name() == "len" {
+							a := c.Call.Args[0]
+							ce.vars["range_x"] = cval{t: vc.v(a), typ: a.Type()}
+						}
+					}
+				}
+			case *ssa.Next:
+				if r, ok := x.Iter.(*ssa.Range); ok {
+					ce.vars["range_x"] = cval{t: vc.v(r.X), typ: r.X.Type()}
+					if mt, ok := r.X.Type().Underlying().(*types.Map); ok {
+						n := vc.iterName(r)
+						srt := "(Array " + vc.e.sortOf(mt.Key()) + " Bool)"
+						ce.iter = vc.arrIn(heap, n, srt)
+					}
+				}
+			}
+		}
 	}
 	return ce
 }
@@ -591,6 +652,37 @@ func (vc *VC) havoc(m *ModSet) {
 			names = append(names, n)
 		}
 	}
+	// arrays written only through specific local objects: havoc just those objects
+	if !m.All {
+		var locals []string
+		for n := range m.Local {
+			if _, general := m.Arr[n]; !general {
+				locals = append(locals, n)
+			}
+		}
+		sort.Strings(locals)
+		for _, n := range locals {
+			srt, ok := vc.arrSort[n]
+			if !ok || !strings.HasPrefix(srt, "(Array Int ") {
+				continue
+			}
+			inner := strings.TrimSuffix(strings.TrimPrefix(srt, "(Array Int "), ")")
+			t := vc.arrIn(vc.cur, n, srt)
+			seen := map[ssa.Value]bool{}
+			for _, al := range m.Local[n] {
+				if seen[al] {
+					continue
+				}
+				seen[al] = true
+				ref, ok := vc.val[al]
+				if !ok {
+					continue // allocated inside the loop: not yet existing at the header
+				}
+				t = Sto(t, ref, vc.fresh("lh", inner))
+			}
+			vc.setArr(n, srt, t)
+		}
+	}
 	sort.Strings(names)
 	for _, n := range names {
 		srt, ok := vc.arrSort[n]
@@ -606,6 +698,9 @@ func (vc *VC) havoc(m *ModSet) {
 		lvl := modOld
 		if !m.All {
 			lvl = m.Arr[n]
+		}
+		if strings.HasPrefix(n, "GH:") && vc.e.ghostMonotone(n[3:]) && srt == "(Array Int Bool)" {
+			vc.gfact(fmt.Sprintf("(forall ((r Int)) (! (=> (select %s r) (select %s r)) :pattern ((select %s r))))", old, nw, nw))
 		}
 		if lvl == modFresh && strings.HasPrefix(srt, "(Array Int ") {
 			// frame: objects that existed before are unchanged
@@ -781,6 +876,31 @@ func (vc *VC) backEdgeChecks(hb *ssa.BasicBlock, edge Term) {
 		vc.autoTermination(hb, edge, sub)
 		return
 	}
+	for _, bc := range ls.BodyCalls {
+		var reaches []Term
+		for _, blk := range vc.ownLoopBlocks(h) {
+			for _, ins := range blk.Instrs {
+				if c, ok := ins.(*ssa.Call); ok {
+					if g := c.Call.StaticCallee(); g != nil && vc.e.fname(g) == bc.Fn {
+						if r, ok := vc.reach[blk.Index]; ok {
+							reaches = append(reaches, r)
+						}
+					}
+				}
+			}
+		}
+		ce := vc.envAt(vc.blk, vc.cur, nil)
+		t := ce.eval(bc.Cond)
+		if ce.err != nil {
+			vc.unsupp("body_calls %q: %v", bc.Text, ce.err)
+			continue
+		}
+		pr := props
+		if len(bc.Props) > 0 {
+			pr = bc.Props
+		}
+		vc.checkG("body-calls", token.NoPos, "loop "+ls.Key+": "+bc.Text, edge, Eq(Or(reaches...), t.t), pr)
+	}
 	for _, inv := range ls.Invariants {
 		ce := vc.envAt(hb, vc.cur, sub)
 		t := ce.eval(inv.Expr)
@@ -919,4 +1039,38 @@ func (vc *VC) hdrIndexOf(hi *hdrInfo) int {
 		}
 	}
 	return -1
+}
+
+// ownLoopBlocks: blocks of loop h that are not inside a nested loop.
+func (vc *VC) ownLoopBlocks(h int) []*ssa.BasicBlock {
+	var out []*ssa.BasicBlock
+	for _, b := range vc.fn.Blocks {
+		if !vc.loopBlks[h][b.Index] {
+			continue
+		}
+		nested := false
+		for h2, set := range vc.loopBlks {
+			if h2 == h || !vc.loopBlks[h][h2] {
+				continue
+			}
+			if set[b.Index] && len(set) < len(vc.loopBlks[h]) {
+				nested = true
+			}
+		}
+		if !nested {
+			out = append(out, b)
+		}
+	}
+	return out
+}
+
+// innermostLoop returns the header index of the innermost loop containing block b (or -1).
+func (vc *VC) innermostLoop(b int) int {
+	best, size := -1, 1<<30
+	for h, set := range vc.loopBlks {
+		if set[b] && len(set) < size {
+			best, size = h, len(set)
+		}
+	}
+	return best
 }
